@@ -688,6 +688,16 @@ func configs(prop, tier string) []*Config {
 			}
 			add(Config{Path: path, Sources: x.src, Matcher: "re", Extract: exZero, Batch: x.batch, Workers: x.workers, Readers: x.readers, Buffer: x.buffer, Agg: true})
 		}
+		if quick {
+			// one small configuration one deviation deeper: a render that falls
+			// between a worker's send and its counter update needs three
+			c := Config{Path: "reader", Sources: []string{shapes[2]}, Matcher: "re", Extract: exZero, Batch: 1, Workers: 1, Readers: 1, Buffer: 1, Agg: true}
+			c.ErrSrc, c.Bound = -1, 3
+			out = append(out, &c)
+		}
+		// unsynchronised matcher scratch shared between workers is only visible to
+		// the race detector: dissect instances own an int pool
+		add(Config{Path: "reader", Sources: []string{shapes[8]}, Matcher: "dissect", Extract: exFull, Batch: 1, Workers: 2, Readers: 1, Buffer: 1, Agg: true})
 		return out
 	}
 	if prop == "C06" {
@@ -760,6 +770,7 @@ func configs(prop, tier string) []*Config {
 			}
 		}
 	}
+	add(Config{Path: "reader", Sources: []string{shapes[8]}, Matcher: "dissect", Extract: exFull, Batch: 1, Workers: 2, Readers: 1, Buffer: 2})
 	for _, l := range logics[1:] {
 		for _, s := range []int{4, 7, 9} {
 			add(Config{Path: "reader", Sources: []string{shapes[s]}, Matcher: l.matcher, Extract: l.extract, Ignore: l.ignore, Batch: 2, Workers: 2, Readers: 1, Buffer: 1})
@@ -779,7 +790,10 @@ type Case struct {
 
 func worker(w *runner.W) {
 	cfgs := configs(w.Prop, w.Tier)
-	race := w.Prop == "C05"
+	// the explorer interleaves only at synchronisation operations; that is
+	// sound only for race-free code, so C01 runs with the happens-before
+	// detector too and reports a race on pipeline state as its own violation
+	race := w.Prop == "C05" || w.Prop == "C01"
 	var unitNo int64
 	orders := map[string]bool{}
 	for ci, c := range cfgs {
@@ -810,6 +824,8 @@ func worker(w *runner.W) {
 				for _, f := range fs {
 					if f.prop == w.Prop {
 						w.Violation(f.sig, f.detail, Case{Config: c, Vector: ex.Vector()})
+					} else if w.Prop == "C01" && strings.HasPrefix(f.sig, "C05/race/") {
+						w.Violation("C01/race/"+strings.TrimPrefix(f.sig, "C05/race/"), "unsynchronised access to state the classification of lines depends on (with real parallelism lines can be matched on another line's data)\n"+f.detail, Case{Config: c, Vector: ex.Vector()})
 					} else if w.Prop == "C06" && (f.prop == "C01" || (f.prop == "C05" && !strings.HasPrefix(f.sig, "C05/race"))) {
 						// with a failing input: lost or duplicated lines of the other inputs, deadlocks
 						w.Violation("C06/with-failing-input/"+f.sig, f.detail, Case{Config: c, Vector: ex.Vector()})
@@ -854,10 +870,12 @@ func replay(w *runner.W, raw json.RawMessage) {
 	}
 	ex := mc.NewReplay(c.Vector)
 	ex.Next()
-	_, res, fs := run(ex, c.Config, w.Prop == "C05")
+	_, res, fs := run(ex, c.Config, w.Prop == "C05" || w.Prop == "C01")
 	for _, f := range fs {
 		if f.prop == w.Prop {
 			w.Violation(f.sig, f.detail+"\nschedule: "+strings.Join(traceCase(c.Config, c.Vector).Trace, " "), c)
+		} else if w.Prop == "C01" && strings.HasPrefix(f.sig, "C05/race/") {
+			w.Violation("C01/race/"+strings.TrimPrefix(f.sig, "C05/race/"), f.detail, c)
 		} else if w.Prop == "C06" && (f.prop == "C01" || (f.prop == "C05" && !strings.HasPrefix(f.sig, "C05/race"))) {
 			w.Violation("C06/with-failing-input/"+f.sig, f.detail, c)
 		}
